@@ -21,6 +21,7 @@ fn main() {
         "record-parse" => record::record_parse(&opts),
         "record-compile" => record::record_compile(&opts),
         "record-api" => record::record_api(&opts),
+        "record-total" => record::record_total(&opts),
         "compile-trees" => record::compile_trees(&opts),
         "compile-text" => record::compile_text(&opts),
         other => {
